@@ -304,7 +304,7 @@ func (g *htmlGen) attrsFor(name string) []hAttr {
 		}
 	case "script":
 		if r.Chance(1, 2) {
-			add("type", r.Pick([]string{"text/javascript", "application/javascript", "module", "text/template", "application/ld+json", "TEXT/JavaScript", "text/x-handlebars"}))
+			add("type", r.Pick([]string{"text/javascript", "application/javascript", "module", "text/template", "application/ld+json", "TEXT/JavaScript", "text/x-handlebars", "Module", "text/javascript; charset=utf-8", "text/javascript;version=1.8", "application/ecmascript", "text/jscript", "importmap", "speculationrules"}))
 		}
 		if r.Chance(1, 6) {
 			add("async", "")
